@@ -1,4 +1,5 @@
 import Pog.Lemmas.Registry
+import Pog.Lemmas.GenCode
 /-
   C06 (table part) — status code → exception class.
 
@@ -144,5 +145,200 @@ theorem alias_names_nodup_of_codes (codes : List Nat) (h : codes.Nodup) :
 
 example : aliasName 404 = "NotFoundError".toList ∧ aliasName 501 = "HttpNotImplementedError".toList
     ∧ aliasName 599 = "Error599".toList := by decide +kernel
+
+
+/-! # C06, behavioural half: what the caller observes for a status outside 200-299
+
+  Model: `Pog.GenCode.handle` (Pog/Model/GenCode.lean), tied to the emitted code by `corr_gencode.py`.
+
+  FULL STATEMENT (C06): for every operation and every HTTP status outside 200-299, declared or not, the call never
+  returns a value: it raises an instance of the package's `HTTPError` carrying that status code and the response;
+  a 4xx status raises a `ClientError`, a 5xx status a `ServerError`.
+
+    bundled transport    : never returns, status + response attached                        (full, `never_returns_non2xx_bundled`)
+    bundled transport    : 4xx ↦ `ClientError`, 5xx ↦ `ServerError`                         (full, `bundled_class_by_range`)
+    pass-through, declared 4xx/5xx : the status-specific alias, whose base is by range      (full, `passthrough_declared_error_class`)
+    pass-through, undeclared 4xx/5xx : ClientError / ServerError                            ✗ (`passthrough_undeclared_raises_base_counterexample`)
+    pass-through, `default` response with content : raises at all                           ✗ (`default_with_content_returns_for_error_status_counterexample`)
+-/
+section behaviour
+open Pog.GenCode
+
+/-- With the bundled `HttpxTransport` a status outside 200-299 never ends in a returned value — for EVERY
+    operation (importable or not) and every reply; when the module is importable the outcome is the
+    transport's own exception carrying the status and the response. -/
+theorem never_returns_non2xx_bundled (op : Op) (r : Reply) (h : ¬ (200 ≤ r.status ∧ r.status < 300)) :
+    (∀ k, handle .bundled op r ≠ .returned k) ∧
+    (moduleOk op = true →
+      handle .bundled op r = .raised (bundledClass r.status) r.status true .transport) := by
+  have hc : r.status < 200 ∨ r.status ≥ 300 := by omega
+  constructor
+  · intro k
+    unfold handle
+    by_cases hm : moduleOk op = true
+    · simp [hm, hc]
+    · simp [hm]
+  · intro hm
+    unfold handle
+    simp [hm, hc]
+
+/-- The class the bundled transport raises is chosen by range: `ClientError` for 400-499, `ServerError` for
+    500-599 (base `HTTPError` for 1xx, 3xx and ≥ 600) — status and response attached. -/
+theorem bundled_class_by_range (op : Op) (r : Reply) (hm : moduleOk op = true) :
+    (400 ≤ r.status ∧ r.status < 500 →
+      handle .bundled op r = .raised .clientError r.status true .transport ∧ ExcCls.clientError.isClient = true) ∧
+    (500 ≤ r.status ∧ r.status < 600 →
+      handle .bundled op r = .raised .serverError r.status true .transport ∧ ExcCls.serverError.isServer = true) ∧
+    (r.status < 200 ∨ (300 ≤ r.status ∧ r.status < 400) ∨ 600 ≤ r.status →
+      handle .bundled op r = .raised .httpError r.status true .transport) := by
+  refine ⟨?_, ?_, ?_⟩
+  · intro h
+    have := (never_returns_non2xx_bundled op r (by omega)).2 hm
+    rw [this]
+    simp [bundledClass, h, ExcCls.isClient]
+  · intro h
+    have := (never_returns_non2xx_bundled op r (by omega)).2 hm
+    rw [this]
+    have h1 : ¬ (400 ≤ r.status ∧ r.status < 500) := by omega
+    simp [bundledClass, h, h1, ExcCls.isServer]
+  · intro h
+    have := (never_returns_non2xx_bundled op r (by omega)).2 hm
+    rw [this]
+    have h1 : ¬ (400 ≤ r.status ∧ r.status < 500) := by omega
+    have h2 : ¬ (500 ≤ r.status ∧ r.status < 600) := by omega
+    simp [bundledClass, h1, h2]
+
+example : moduleOk ⟨"GET".toList, [.lit "/a".toList], [], none, [⟨.num 200, []⟩]⟩ = true := by decide +kernel
+
+/-- The `match` of the emitted method selects `raise <alias>(response=response)` for a declared 4xx/5xx status. -/
+theorem select_declared_error (rs : List Resp) (s : Nat) (hs : 400 ≤ s ∧ s < 600)
+    (hd : ∃ x ∈ rs, x.key = .num s) : selectAction rs s = .raiseAlias s := by
+  obtain ⟨x, hx, hk⟩ := hd
+  have hns := not_starts2_of_error s hs
+  have hxo : x ∈ otherResponses rs := by
+    apply mem_otherResponses hx
+    intro p n hp heq
+    have := (processedPrimary_spec hp).2.2.1
+    rw [← heq, hk, hns] at this
+    cases this
+  have hxa : otherArm x = some (s, .raiseAlias s) := by
+    rw [otherArm_num hk, hns]; rfl
+  have hex : ∃ a ∈ arms rs, a.1 = s := ⟨_, otherArm_mem_arms hxo hxa, rfl⟩
+  have hall : ∀ a ∈ arms rs, a.1 = s → a.2 = Action.raiseAlias s := by
+    intro a ha has
+    rcases mem_arms ha with ⟨p, hp, _⟩ | ⟨y, _, hy⟩
+    · have hsp := processedPrimary_spec hp
+      have h2 := hsp.2.2.1
+      rw [hsp.2.1, has, hns] at h2
+      cases h2
+    · have hyk := otherArm_code (n := a.1) (a := a.2) hy
+      rw [otherArm_num hyk, has, hns] at hy
+      simp only [Bool.false_eq_true, if_false, Option.some.injEq] at hy
+      rw [← hy]
+  obtain ⟨a, hfa, ha2⟩ := find_arm hex hall
+  unfold selectAction
+  rw [hfa]
+  exact ha2
+
+/-- Pass-through transport, DECLARED 4xx/5xx status: the generated `match` raises the status-specific alias
+    class with the status and the response; the alias derives from `ClientError` for 400-499 and from
+    `ServerError` for 500-599. -/
+theorem passthrough_declared_error_class (op : Op) (r : Reply) (hm : moduleOk op = true)
+    (hs : 400 ≤ r.status ∧ r.status < 600) (hd : ∃ x ∈ op.responses, x.key = .num r.status) :
+    handle .passthrough op r = .raised (.alias r.status) r.status true .aliasArm ∧
+    (r.status < 500 → (ExcCls.alias r.status).isClient = true) ∧
+    (500 ≤ r.status → (ExcCls.alias r.status).isServer = true) := by
+  refine ⟨?_, ?_, ?_⟩
+  · unfold handle
+    simp only [hm, Bool.not_true, Bool.false_eq_true, if_false]
+    rw [select_declared_error op.responses r.status hs hd]
+    rfl
+  · intro h
+    have := (alias_base_by_range_literal r.status).1 ⟨hs.1, h⟩
+    simp [ExcCls.isClient, this]
+  · intro h
+    have := (alias_base_by_range_literal r.status).2.1 ⟨h, hs.2⟩
+    simp [ExcCls.isServer, this]
+
+/-- An operation declaring 200 (a model), 404 and 503. -/
+def exDeclared : Op :=
+  ⟨"GET".toList, [.lit "/pets/".toList, .var "id".toList], [⟨"id".toList, .path, true⟩], none,
+   [⟨.num 200, [⟨mtJson, .model "Pet".toList⟩]⟩, ⟨.num 404, []⟩, ⟨.num 503, []⟩]⟩
+
+example : moduleOk exDeclared = true ∧ (∃ x ∈ exDeclared.responses, x.key = .num 404) ∧
+    handle .passthrough exDeclared ⟨404, none⟩ = .raised (.alias 404) 404 true .aliasArm ∧
+    handle .passthrough exDeclared ⟨503, none⟩ = .raised (.alias 503) 503 true .aliasArm := by
+  decide +kernel
+
+/-- ✗ C06 for a pass-through transport and an UNDECLARED error status: the catch-all arm raises the BASE
+    `HTTPError` ("Unhandled status code"), which is neither a `ClientError` (404) nor a `ServerError` (500). -/
+theorem passthrough_undeclared_raises_base_counterexample :
+    handle .passthrough exDeclared ⟨409, none⟩ = .raised .httpError 409 true .unhandledArm ∧
+    ExcCls.httpError.isClient = false ∧
+    handle .passthrough exDeclared ⟨500, none⟩ = .raised .httpError 500 true .unhandledArm ∧
+    ExcCls.httpError.isServer = false := by
+  decide +kernel
+
+/-- The general shape of that defect: with a pass-through transport, a 4xx/5xx status for which the
+    operation declares no numeric response and no `default` response always raises the base class. -/
+theorem passthrough_undeclared_raises_base (op : Op) (r : Reply) (hm : moduleOk op = true)
+    (hu : ∀ x ∈ op.responses, x.key.code? ≠ some r.status)
+    (hdef : ∀ x ∈ op.responses, x.key.isDefault = false) :
+    handle .passthrough op r = .raised .httpError r.status true .unhandledArm := by
+  have hnone : (arms op.responses).find? (fun a => a.1 == r.status) = none := by
+    apply find_arm_none
+    intro a ha has
+    rcases mem_arms ha with ⟨p, hp, _⟩ | ⟨y, hy, hya⟩
+    · have hsp := processedPrimary_spec hp
+      have := hu p hsp.1
+      rw [hsp.2.1, has] at this
+      exact this rfl
+    · have hyk := otherArm_code (n := a.1) (a := a.2) hya
+      have := hu y (otherResponses_sub hy)
+      rw [hyk, has] at this
+      exact this rfl
+  have hd : defaultAction op.responses = .raiseUnhandled := by
+    unfold defaultAction
+    have : op.responses.find? (fun r => r.key.isDefault) = none := by
+      rw [List.find?_eq_none]
+      intro x hx
+      simp [hdef x hx]
+    rw [this]
+  unfold handle
+  simp only [hm, Bool.not_true, Bool.false_eq_true, if_false]
+  unfold selectAction
+  rw [hnone, hd]
+  rfl
+
+/-- An operation with a `default` response that has content. -/
+def exDefaultContent : Op :=
+  ⟨"GET".toList, [.lit "/pets".toList], [], none,
+   [⟨.num 200, [⟨mtJson, .model "Pet".toList⟩]⟩, ⟨.default, [⟨mtJson, .model "Problem".toList⟩]⟩]⟩
+
+/-- ✗ C06 ("never returns a value"): a declared `default` response WITH content makes the `case _:` arm
+    `return` through the primary strategy — with a pass-through transport a 500 (or 404, or 302) reply is
+    RETURNED, parsed as the success type `Pet`. -/
+theorem default_with_content_returns_for_error_status_counterexample :
+    moduleOk exDefaultContent = true ∧
+    handle .passthrough exDefaultContent ⟨500, none⟩ = .returned (.structure (.model "Pet".toList)) ∧
+    handle .passthrough exDefaultContent ⟨404, none⟩ = .returned (.structure (.model "Pet".toList)) ∧
+    handle .passthrough exDefaultContent ⟨302, none⟩ = .returned (.structure (.model "Pet".toList)) := by
+  decide +kernel
+
+/-- The general shape: whenever the `case _:` arm is the strategy return, EVERY status that matches no
+    declared numeric arm is returned (or dies with the missing-import `NameError`), never raised as `HTTPError`. -/
+theorem default_with_content_never_raises_http (op : Op) (r : Reply) (hm : moduleOk op = true)
+    (hd : defaultAction op.responses = .retStrategy)
+    (hu : ∀ a ∈ arms op.responses, a.1 ≠ r.status) :
+    ∀ cls st w why, handle .passthrough op r ≠ .raised cls st w why := by
+  intro cls st w why
+  unfold handle
+  simp only [hm, Bool.not_true, Bool.false_eq_true, if_false]
+  unfold selectAction
+  rw [find_arm_none hu, hd]
+  simp only [runAction, returnOf]
+  split <;> intro h <;> cases h
+
+end behaviour
 
 end Pog.C06
